@@ -257,7 +257,15 @@ void merged_expr_t::compile(scope_t& scope)
     parse(buf.str());
   }
 
-  expr_t::compile(scope);
+  // The `term=...` definitions above must not land in the symbol table of the session (the nearest
+  // symbol_scope_t above a report_t): they are bound to this report and would outlive it.
+  if (! compiled) {
+    if (ptr) {
+      symbol_scope_t definitions(scope);
+      ptr = ptr->compile(definitions);
+    }
+    expr_base_t<value_t>::compile(scope);
+  }
 }
 
 expr_t::ptr_op_t as_expr(const value_t& val)
